@@ -3318,6 +3318,18 @@ def hand_oracle(which):
         if which == "C11" and not m["assign"]:
             if ro != mt or lists.get("rolog") != lists.get("mutlog") or lists.get("vars") != HAND_VARS0:
                 return "the hand-built tree %s has no assignment operator but eval_with_context gives %s [%s] and eval_with_context_mut gives %s [%s] with variables {%s}" % (m["text"], ro, lists.get("rolog"), mt, lists.get("mutlog"), lists.get("vars"))
+        if which == "C12":
+            vs = re.search(r" views\[(.*)\]$", out)
+            if not vs:
+                return "no entry-point views reported for the hand-built tree %s: %s" % (m["text"], out[-200:])
+            views = vs.group(1).split("|")
+            if len(views) != 24:
+                return "expected 24 tree-level entry points on the hand-built tree %s, got %d" % (m["text"], len(views))
+            for mi, (mode, base) in enumerate((("context-free", views[0]), ("shared-context", ro), ("mutable-context", mt))):
+                for ti, ty in enumerate("vsifnbte"):
+                    want = project_text(ty, views[8 * mi]) if mi == 0 else project_text(ty, base)
+                    if views[8 * mi + ti] != want:
+                        return "%s tree-level entry point of type %s on the hand-built tree %s returned %s; the projection of the untyped result %s is %s" % (mode, ty, m["text"], views[8 * mi + ti], views[8 * mi] if mi == 0 else base, want)
         if which == "C13" and m["bad_arity"] and m["roots_small"]:
             if ro.startswith("OK") or mt.startswith("OK"):
                 return "the hand-built tree %s has an operator with the wrong number of operands but evaluates: %s / %s" % (m["text"], ro, mt)
@@ -3358,6 +3370,7 @@ with_hand("C01", 6000, vals=True)
 with_hand("C11", 4000)
 with_hand("C13", 4000)
 with_hand("C14", 4000)
+with_hand("C12", 3000)
 
 
 # ---------------------------------------------------------------------------------------------
